@@ -40,6 +40,24 @@ def run(chk, prog):
                                consequence="aborts the process while a rule/format/key expression is loaded (panic=abort)")
     chk.floor("P-milu", n2, 150, "panic edges in the rule-language scope")
 
+    # P-config: library calls whose panic condition is a *configured* quantity, wherever they are (the traffic path included): an
+    # accepted configuration must not make them panic when the first connection arrives.  tokio::time::interval panics on a zero period.
+    nper = 0
+    for k in sorted(load | net):
+        f_ = prog.fns.get(k)
+        if f_ is None or f_.crate != "redproxy_rs":
+            continue
+        for e in panics.panic_edges(f_):
+            if e.kind == "K4" and e.sub.startswith("PERIOD"):
+                nper += 1
+                okp, why, _tag = panics.classify(f_, e)
+                chk.instance("P-config", e.where(), "%s: the timer period / channel capacity cannot be zero" % f_.path, okp, why)
+                if not okp:
+                    chk.finding("P-config", f_.key, e.sub, e.root or "", e.where(),
+                                "%s builds a tokio interval from a computed period: when the value it is derived from (a configured timeout; 0 is "
+                                "accepted and means 'disabled') makes it zero, interval() panics and the process aborts on the first connection" % f_.path)
+    chk.floor("P-config", nper, 1, "tokio interval constructions")
+
     # ---------------------------------------------------------------- (2) dispatch totality
     for pat in (r"^listeners::from_value$", r"^connectors::from_value$"):
         f = prog.one(pat)
